@@ -126,10 +126,13 @@ def wireCmd (toks : List String) : String :=
           | ["unk"] => some .removeUnknown
           | ["serial", n] => do let n ← n.toNat?; pure (.setSerial n)
           | _ => none
-        match ops.mapM parseOp with
+        -- `rd`: the application reads the body, which converts a message in the other byte order to native order (not an edit)
+        let parseStep (o : String) : Option (Msg → Msg) :=
+          if o = "rd" then some (fun m => { m with endian := .little }) else (parseOp o).map (fun op m => applyEdit m op)
+        match ops.mapM parseStep with
         | some eops =>
-          let (_, outs) := eops.foldl (fun (acc : Msg × List String) op =>
-            let m' := applyEdit acc.1 op
+          let (_, outs) := eops.foldl (fun (acc : Msg × List String) f =>
+            let m' := f acc.1
             (m', acc.2 ++ [toHex (encodeMsg m')])) (m0, [])
           " ".intercalate outs
         | none => "bad-op"
@@ -154,10 +157,13 @@ def wireCmd (toks : List String) : String :=
           | ["unk"] => some .removeUnknown
           | ["serial", n] => do let n ← n.toNat?; pure (.setSerial n)
           | _ => none
-        match ops.mapM parseOp with
+        -- `rd`: the application reads the body, which converts a message in the other byte order to native order (not an edit)
+        let parseStep (o : String) : Option (Msg → Msg) :=
+          if o = "rd" then some (fun m => { m with endian := .little }) else (parseOp o).map (fun op m => applyEdit m op)
+        match ops.mapM parseStep with
         | some eops =>
-          let (_, outs) := eops.foldl (fun (acc : Msg × List String) op =>
-            let m' := applyEdit acc.1 op
+          let (_, outs) := eops.foldl (fun (acc : Msg × List String) f =>
+            let m' := f acc.1
             (m', acc.2 ++ [toHex (encodeMsg m')])) (m0, [])
           " ".intercalate outs
         | none => "bad-op"
